@@ -15,7 +15,7 @@ import os
 import random
 import typing as T
 
-from . import common, c01_gen, c01_impl, c01_oracle, c01_tables
+from . import common, c01_gen, c01_history, c01_impl, c01_oracle, c01_tables
 from .common import Ctx
 
 ID = 'C01'
@@ -133,6 +133,10 @@ def _programs(kind: str, rng: random.Random, n: int, full: bool) -> T.Iterator[T
         yield from c01_gen.method_grid(mn, rng, 6 if full else 3)
     elif kind == 'functions':
         yield from c01_gen.function_grid(rng)
+    elif kind == 'strgrid':         # exhaustive, sharded: `n` = number of shards, the shard number is the task's seed
+        for i, item in enumerate(c01_gen.string_grid(full)):
+            if i % max(1, n) == rng.shard:
+                yield item
     elif kind == 'corpus':
         d = os.path.join(common.VERIF, 'corpus', 'C01')
         if os.path.isdir(d):
@@ -148,6 +152,7 @@ def _task(t: T.Tuple[str, int, int, bool]) -> dict:
     im = _IM
     assert im is not None
     rng = random.Random(seed)
+    rng.shard = seed        # type: ignore[attr-defined]
     res: dict = {'cases': [], 'viol': [], 'parse_errors': 0, 'n': 0, 'oracle_checks': 0, 'unser': 0}
     if kind.startswith('oracle:'):
         name = kind[7:]
@@ -179,6 +184,9 @@ def _task(t: T.Tuple[str, int, int, bool]) -> dict:
         elif name == 'method_relations':
             v = c01_oracle.oracle_method_relations(im, rng, n)
             n = 8 * n
+        elif name == 'substitution':
+            v = c01_oracle.oracle_substitution(im, rng, n)
+            n = 2 * n
         elif name == 'files':
             v = c01_oracle.oracle_files(im, rng, n, os.path.dirname(im.dir))
             n = 5 * n
@@ -186,6 +194,23 @@ def _task(t: T.Tuple[str, int, int, bool]) -> dict:
             raise ValueError(name)
         res['viol'] = v
         res['oracle_checks'] = n
+        return res
+    if kind == 'history':       # `seed` = shard, `n` = number of shards; this worker has evaluated nothing yet (see execute)
+        mn = {h: sorted(c.METHODS) for h, c in c01_tables.holders()}
+        pairs = c01_history.PAIRS if full else c01_history.PAIRS[:QUICK_HISTORY_PAIRS]
+        res['history_missing'] = c01_history.covered(c01_history.contexts(mn), mn)
+        viol, combined, counters = c01_history.run_shard(im, mn, seed, n, pairs)
+        res['viol'] = viol
+        res['history'] = counters
+        res['n'] = counters['combined']
+        res['oracle_checks'] = counters['fresh_ok']
+        for tagname, code, ans in combined:
+            try:
+                line = 'run ' + c01_impl.serialise(im.mparser, im.parse(code))
+            except Exception:
+                res['unser'] += 1
+                continue
+            res['cases'].append((tagname, code, line, ans))
         return res
     if kind in ('tree', 'aliasgrid'):
         mp = im.mparser
@@ -252,6 +277,10 @@ def _task(t: T.Tuple[str, int, int, bool]) -> dict:
     return res
 
 
+QUICK_HISTORY_PAIRS = 12
+HISTORY_SHARDS = 32
+
+
 # every kept seeded change of this property has a minimised program of its class in the corpus (run first)
 SEED_CLASSES = {
     'C01-a': 'alias_get_variable_after_plusassign.meson',
@@ -261,6 +290,7 @@ SEED_CLASSES = {
     'C01-c5': 'contains_array_needle.meson',
     'C01-c6': 'underscorify_non_ascii.meson',
     'C01-c7': 'array_get_lowest_negative_index.meson',
+    'C01-c8': 'stringify_equal_values_other_type.meson',
 }
 
 
@@ -293,6 +323,8 @@ def plan(ctx: Ctx) -> T.List[T.Tuple[str, int, int, bool]]:
     tasks: T.List[T.Tuple[str, int, int, bool]] = [('corpus', 0, 0, full)] + [('aliasgrid', i, 8, full) for i in range(8)] + [
         ('ops', 0, 0, full),
         ('methods', rng.getrandbits(32), 0, full), ('functions', rng.getrandbits(32), 0, full)]
+    tasks += [('history', i, HISTORY_SHARDS, full) for i in range(HISTORY_SHARDS)]
+    tasks += [('strgrid', i, 8, full) for i in range(8)]
     chunk = 250
     for kind, total in (('rand', ctx.scale(9000, 40000)), ('mutant', ctx.scale(7000, 25000)),
                         ('alias', ctx.scale(3000, 10000)), ('tree', ctx.scale(2000, 10000))):
@@ -302,7 +334,7 @@ def plan(ctx: Ctx) -> T.List[T.Tuple[str, int, int, bool]]:
                             ('index', ctx.scale(3000, 10000), 500), ('keys', ctx.scale(1000, 3000), 250),
                             ('parse_laws', ctx.scale(4000, 12000), 500), ('precedence_values', ctx.scale(3000, 10000), 500),
                             ('control', ctx.scale(800, 2400), 200), ('variables', ctx.scale(1500, 5000), 250),
-                            ('method_relations', ctx.scale(800, 3000), 100)):
+                            ('method_relations', ctx.scale(800, 3000), 100), ('substitution', ctx.scale(2000, 8000), 500)):
         for _ in range(max(1, total // ch)):
             tasks.append(('oracle:' + name, rng.getrandbits(32), ch, full))
     tasks.append(('oracle:cross_type', 0, 0, True))
@@ -316,8 +348,26 @@ def execute(tasks: T.List[T.Tuple[str, int, int, bool]]) -> T.List[dict]:
     base = common.scratch_dir('mverif-c01-')
     try:
         ctxm = multiprocessing.get_context('fork')
+        # the history family needs workers that have not evaluated ANY program before (its from-scratch evaluations are
+        # forks of them): a second pool whose processes serve exactly one task each, forked from this process, which
+        # never evaluates a program itself before this point
+        hist = [t for t in tasks if t[0] == 'history']
+        rest = [t for t in tasks if t[0] != 'history']
         with ctxm.Pool(NCPU, initializer=_init, initargs=(base,)) as pool:
-            return pool.map(_task, tasks, chunksize=1)
+            hres = None
+            hpool = None
+            if hist:
+                hpool = ctxm.Pool(min(NCPU, len(hist)), initializer=_init, initargs=(base,), maxtasksperchild=1)
+                hres = hpool.map_async(_task, hist, chunksize=1)
+            try:
+                out = pool.map(_task, rest, chunksize=1) if rest else []
+                if hres is not None:
+                    out += hres.get()
+            finally:
+                if hpool is not None:
+                    hpool.terminate()
+                    hpool.join()
+            return out
     finally:
         common.rmtree(base)
 
@@ -415,7 +465,7 @@ def compare(ctx: Ctx, cases: T.List[T.Tuple[str, str, str, str]]) -> None:
 def coverage_report(ctx: Ctx) -> None:
     """which dispatch entries of the regenerated tables did the model exercise in this run"""
     hit = {k[6:] for k in ctx.dist if k.startswith('model:')}
-    tyn = {'int': 'int', 'bool': 'bool', 'str': 'str', 'arr': 'array', 'dict': 'dict', 'range': 'range'}
+    tyn = {'int': 'int', 'bool': 'bool', 'str': 'str', 'arr': 'array', 'dict': 'dict', 'range': 'range', 'subproj': 'subproject'}
     opn = {'plus': '+', 'minus': '-', 'times': '*', 'div': '/', 'mod': '%', 'uminus': 'uminus', 'not_': 'not', 'bool': 'bool()',
            'equals': '==', 'notEquals': '!=', 'greater': '>', 'less': '<', 'greaterEquals': '>=', 'lessEquals': '<=',
            'in_': 'in', 'notIn': 'not-in', 'index': '[]'}
@@ -427,7 +477,7 @@ def coverage_report(ctx: Ctx) -> None:
             ok = any(t.startswith(f'un:{opn[o]}:{tyn[h]}:ok') for t in hit)
         else:
             ok = any(t.startswith(f'op:{tyn[h]}{opn[o]}') and t.endswith(':ok') for t in hit)
-        if not ok and h != 'range':
+        if not ok and h not in ('range', 'subproj'):
             missing.append(f'{h} {o}')
     for h, ms in c01_tables.method_rows():
         for m in ms:
@@ -442,7 +492,10 @@ def coverage_report(ctx: Ctx) -> None:
 def run(ctx: Ctx) -> None:
     ctx.rule = ('streams: corpus, exhaustive operator grid (15 binary operators x all pairs of sample values of the 6 value kinds '
                 'and void; unary/if/ternary/foreach/index/+= forms), method grid (every METHODS entry x pooled argument shapes), '
-                'function grid, type-directed random programs, ill-typed/erroneous mutants, alias-sensitive programs. '
+                'function grid, exhaustive short-string grid of the str methods / .format() / f-strings, history family (every operator / '
+                'method / stringification context on equal-but-differently-typed values in both orders and through one loop node, judged '
+                'against from-scratch evaluations in fresh forks), type-directed random programs, ill-typed/erroneous mutants, '
+                'alias-sensitive programs. '
                 'A program is non-trivial when it parses, lies inside the modelled subset and the set of model dispatch '
                 'tags it exercised differs from the most common set; counted distinct by program text.')
     bad = c01_gen.check_alphabet()
@@ -464,6 +517,17 @@ def run(ctx: Ctx) -> None:
         ctx.obligation_failed('snapshot-oracle', 'the per-statement immutability oracle was applied to no statement')
     for miss in corpus_self_check():
         ctx.obligation_failed('corpus', miss)
+    # vacuity of the history family: it ran, its from-scratch evaluations were obtained, and its contexts reach
+    # every operator and every METHODS entry of the live holder classes
+    hist = [r for r in results if 'history' in r]
+    hsum = {k: sum(r['history'].get(k, 0) for r in hist) for k in ('contexts', 'fresh_ok', 'fresh_failed', 'combined')}
+    ctx.extra['history_family'] = dict(hsum, shards=len(hist))
+    if not hist or hsum['combined'] == 0:
+        ctx.obligation_failed('history-family', 'no program of the history family ran')
+    elif hsum['fresh_ok'] == 0 or hsum['fresh_failed'] > hsum['fresh_ok'] // 10:
+        ctx.obligation_failed('history-family', f'from-scratch evaluations could not be obtained: {hsum}')
+    for miss in sorted({m for r in hist for m in r.get('history_missing', [])}):
+        ctx.obligation_failed('history-family', f'no context of the history family exercises {miss}')
     for r in results:
         cases += r['cases']
         ctx.count(r['n'] + r['oracle_checks'])
@@ -552,7 +616,7 @@ def search(ctx: Ctx, disagreements: T.List[dict]) -> None:
     tasks: T.List[T.Tuple[str, int, int, bool]] = []
     for name, total, ch in (('short_circuit', 5000, 250), ('divmod', 10000, 500), ('index', 10000, 500), ('keys', 3000, 250),
                             ('parse_laws', 10000, 500), ('precedence_values', 10000, 500), ('control', 3000, 200),
-                            ('variables', 5000, 250), ('method_relations', 4000, 100)):
+                            ('variables', 5000, 250), ('method_relations', 4000, 100), ('substitution', 8000, 500)):
         for _ in range(total // ch):
             tasks.append(('oracle:' + name, rng.getrandbits(32), ch, True))
     tasks += [('oracle:cross_type', 0, 0, True), ('oracle:escapes', 0, 0, True)]
@@ -575,6 +639,16 @@ def replay(ctx: Ctx, rep: dict) -> None:
             progs.append(d['program'])
     im = c01_impl.Impl()
     try:
+        if str(rep.get('key', '')).startswith('history:'):
+            # before anything else is evaluated in this process: the from-scratch halves are forks of it
+            still = c01_history.recheck(im, case)
+            print('program:')
+            print(case.get('program'))
+            print('recorded  :', rep.get('what'))
+            print('still fails' if still else 'no longer fails')
+            if still:
+                ctx.violation(rep['key'], rep.get('what', ''), case)
+            return
         for code in progs:
             model, ans, viol = one(im, code)
             print('program:')
@@ -599,7 +673,8 @@ def replay(ctx: Ctx, rep: dict) -> None:
         im.close()
 
 
-MUST_FAIL = ('cross-type', 'int-op-bool', 'bool-as-int-argument', 'div-zero', 'index-bounds', 'short-circuit-eager', 'parse-accepts')
+MUST_FAIL = ('cross-type', 'int-op-bool', 'bool-as-int-argument', 'div-zero', 'index-bounds', 'short-circuit-eager', 'parse-accepts',
+             'fstring-undefined', 'format-out-of-range')
 
 
 def _still_fails(im: c01_impl.Impl, rep: dict) -> bool:
@@ -627,6 +702,8 @@ def _still_fails(im: c01_impl.Impl, rep: dict) -> bool:
             return bool(c01_oracle.check_string_nodes(im, code, im.parse(code)))
         except Exception:
             return True
+    if fam in ('fstring', 'format') and 'expected' in case:
+        return not (ok and vs and vs.get('r') == case['expected'])
     if fam in ('escape', 'raw') and 'expected' in case:
         return not (ok and vs and vs.get('x') == case['expected'])
     if fam.startswith('container-eq'):
